@@ -13,3 +13,6 @@ INVARIANT InvC01
 INVARIANT InvC08
 INVARIANT InvC20
 INVARIANT InvSecrets
+INVARIANT InvC02
+PROPERTY ActC02
+PROPERTY ActC07
